@@ -52,7 +52,10 @@ def _violate(fmt, recs, r, cls):
     recs = [list(x) for x in recs]
     if cls == 'int':
         p = recs[r][0].split(b'\t')
-        p[1] = p[1] + b'z' if r % 2 else b'?' + p[1]
+        # characters above '9' and below '0', at the start, inside and at the end of the field
+        kind = (r + len(recs)) % 7
+        p[1] = [p[1] + b'z', b'?' + p[1], p[1][:1] + b'.' + p[1][1:], p[1][:1] + b'-' + p[1][1:], p[1][:1] + b' ' + p[1][1:],
+                p[1] + b',', p[1][:1] + b'/' + p[1][1:]][kind]
         recs[r][0] = b'\t'.join(p)
     elif cls == 'score':
         p = recs[r][0].rstrip(b'\n').split(b'\t')
